@@ -4,8 +4,11 @@ import (
 	"fmt"
 	"go/types"
 	"path/filepath"
+	"regexp"
 	"strings"
 )
+
+var reStrLen = regexp.MustCompile(`\(str\.len ([^\s()]+|\([^()]*\))\)`)
 
 type ReplayRecord struct {
 	Property    string            `json:"property"`
@@ -147,14 +150,92 @@ func (p *Prog) makeReplay(o *Obligation, prop, repo, outDir string) *ReplayRecor
 	r := o.Result
 	rep := &ReplayRecord{Property: prop, Obligation: o.Name, Kind: o.Kind, Function: o.Func, Clause: o.Text, Where: o.Where,
 		Solver: r.Status, Backend: r.Backend, SolverOut: truncate(r.Output, 6000), SMTFile: r.File}
+	target := o
 	if r.Status != "sat" {
-		rep.Note = "the obligation stopped proving; the solver returned no model (" + r.Status + ")"
-		return rep
+		// candidate-model search: drop the quantified assumptions (weaker problem, more models); a model found
+		// this way is only a candidate and counts solely if it reproduces on the real code.
+		rel := p.relax(o)
+		rr := p.u.Solve(rel, filepath.Dir(r.File), 8, false)
+		if rr.Status != "sat" {
+			rep.Note = "the obligation stopped proving; the solver returned no model (" + r.Status + "; relaxed search: " + rr.Status + ")"
+			return rep
+		}
+		rel.Result = rr
+		target = rel
+		rep.Note = "candidate model from the relaxed query (quantified assumptions dropped); "
 	}
-	ok, note := p.tryReplay(o, rep, repo, filepath.Join(outDir, "replay", prop))
+	ok, note := p.tryReplay(target, rep, repo, filepath.Join(outDir, "replay", prop))
 	rep.Reproduced = ok
-	rep.Note = note
+	rep.Note += note
 	return rep
 }
 
 var _ = strings.TrimSpace
+
+// relax drops quantified facts and bounds the string inputs.
+func (p *Prog) relax(o *Obligation) *Obligation {
+	n := *o
+	n.Name = o.Name + "~relaxed"
+	n.Relaxed = true
+	n.Result = nil
+	n.Facts = nil
+	var split func(f string)
+	split = func(f string) {
+		if strings.HasPrefix(f, "(and ") && balanced(f[5:len(f)-1]) {
+			for _, part := range splitSExprs(f[5 : len(f)-1]) {
+				split(part)
+			}
+			return
+		}
+		if strings.Contains(f, "(forall ") || strings.Contains(f, "(exists ") {
+			return
+		}
+		n.Facts = append(n.Facts, f)
+	}
+	for _, f := range o.Facts {
+		split(f)
+	}
+	if o.vc != nil {
+		n.Decls = o.vc.decls
+	}
+	// interface-typed inputs hold one of the known dynamic types
+	if o.vc != nil {
+		for _, in := range o.vc.inputs {
+			if in.Term.Sort != "Iface" {
+				continue
+			}
+			it, _ := under(in.Term.T).(*types.Interface)
+			alts := []string{eq("(itag "+in.Term.S+")", "0")}
+			for _, tt := range p.u.tagTypes {
+				if it != nil && types.Implements(tt, it) {
+					alts = append(alts, eq("(itag "+in.Term.S+")", fmt.Sprint(p.u.Tag(tt))))
+				}
+			}
+			n.Facts = append(n.Facts, or(alts...), "(>= (ipay "+in.Term.S+") 0)")
+		}
+	}
+	// sanity of strings mentioned in the query
+	seen := map[string]bool{}
+	text := strings.Join(n.Facts, " ") + " " + n.Goal
+	for _, m := range reStrLen.FindAllStringSubmatch(text, -1) {
+		if !seen[m[1]] && balanced(m[1]) {
+			seen[m[1]] = true
+			n.Facts = append(n.Facts, fmt.Sprintf("(and (<= 0 (str.len %s)) (<= (str.len %s) 80))", m[1], m[1]))
+		}
+	}
+	return &n
+}
+
+func splitSExprs(s string) []string {
+	var out []string
+	s = strings.TrimSpace(s)
+	for s != "" {
+		e := firstSExpr(s)
+		if e == "" {
+			break
+		}
+		out = append(out, e)
+		s = strings.TrimSpace(s[len(e):])
+	}
+	return out
+}
